@@ -56,9 +56,20 @@ def key_safe_doc(v):
     return True if v[0] == 's' else key_safe(0, v)
 
 
+def too_deep(v, d=0):
+    """a non-empty container at depth >= 255: its children's depth marker saturates"""
+    if v[0] == 'a':
+        return (len(v[1]) > 0 and d >= 255) or any(too_deep(x, d + 1) for x in v[1])
+    if v[0] == 'o':
+        return (len(v[1]) > 0 and d >= 255) or any(too_deep(x, d + 1) for _, x in v[1])
+    return False
+
+
 def in_known_class(a, b):
     if has_big_int(a) or has_big_int(b):
         return 'comparable-key-big-int'
+    if too_deep(a) or too_deep(b):
+        return 'comparable-key-depth-saturation'
     return None
 
 
